@@ -24,6 +24,10 @@ type Consumer struct {
 	// Sicv3: the consumer takes the offers with sicv3 (acknowledges a valid, measures the gap to the next one)
 	// instead of capturing them with i2rw: transfers are counted, values are not compared. Simulator world.
 	Sicv3 bool `json:",omitempty"`
+	// Finite > 0: the consumer reads that many values and its program ends there (the simulator halts a
+	// processor that runs off the end of its ROM; the hardware wraps around: simulator world only). The
+	// producer must then wait for ever on its next write.
+	Finite int `json:",omitempty"`
 }
 
 type Case struct {
@@ -83,8 +87,20 @@ func (c Case) spec() gen.BMSpec {
 			q = append(q, pad(cs.PadEnd)...)
 			m = 1
 		}
-		q = append(q, "j 0")
-		s.Procs = append(s.Procs, gen.ProcSpec{R: 1, N: 1, M: m, O: gen.NeededBits(len(q)), Ops: gen.UsedOps(q), Prog: q})
+		if cs.Finite > 0 {
+			body := append([]string(nil), q...)
+			for k := 1; k < cs.Finite; k++ {
+				q = append(q, body...)
+			}
+			if cs.PadEnd == 0 && !cs.Forward {
+				// the program ends on the read itself (PadAfter instructions follow it)
+				q = q[:len(q)-cs.PadAfter]
+				q = append(q, pad(cs.PadAfter%2)...)
+			}
+		} else {
+			q = append(q, "j 0")
+		}
+		s.Procs = append(s.Procs, gen.ProcSpec{R: 1, N: 1, M: m, O: gen.NeededBits(len(q) + 1), Ops: gen.UsedOps(append(append([]string(nil), q...), "j 0")), Prog: q})
 		s.Bonds = append(s.Bonds, [2]string{fmt.Sprintf("p%di0", i+1), "p0o0"})
 		if cs.Forward && !cs.Sicv3 {
 			s.Bonds = append(s.Bonds, [2]string{fmt.Sprintf("o%d", s.Outputs), fmt.Sprintf("p%do0", i+1)})
@@ -111,6 +127,9 @@ func genCase(t *rapid.T) Case {
 			OutStall:  rapid.IntRange(0, 3).Draw(t, "stall"),
 		}
 		cs.Sicv3 = rapid.IntRange(0, 5).Draw(t, "sicv3") == 0
+		if rapid.IntRange(0, 5).Draw(t, "finite") == 0 {
+			cs.Finite = rapid.IntRange(1, 3).Draw(t, "reads")
+		}
 		c.Consumers = append(c.Consumers, cs)
 	}
 	if rapid.Bool().Draw(t, "delays") {
@@ -178,11 +197,12 @@ func prop(c Case) pbt.Outcome {
 			prodW[i] = 1
 		}
 	}
-	consR := make([]int, len(c.Consumers))
+	consR := make([]map[int]bool, len(c.Consumers)) // the positions of the consumer's reads
 	for i := range c.Consumers {
+		consR[i] = map[int]bool{}
 		for j, l := range spec.Procs[i+1].Prog {
 			if strings.HasPrefix(l, "i2rw") || strings.HasPrefix(l, "sicv3") {
-				consR[i] = j
+				consR[i][j] = true
 			}
 		}
 	}
@@ -209,7 +229,7 @@ func prop(c Case) pbt.Outcome {
 			if !cp.InputsValid[0] {
 				sameOffer[i] = false
 			}
-			if prePcC[i] == consR[i] && cp.DelayCounter == 0 && cp.InputsRecv[0] && cp.InputsValid[0] && sameOffer[i] {
+			if consR[i][prePcC[i]] && cp.DelayCounter == 0 && cp.InputsRecv[0] && cp.InputsValid[0] && sameOffer[i] {
 				d4 = true // i2rw captures the SAME offer again: its own recv of the previous read is still high and valid never fell
 			}
 		}
@@ -219,7 +239,7 @@ func prop(c Case) pbt.Outcome {
 		// consumers first: a consumer may capture in the tick before the producer moves on
 		for i := range c.Consumers {
 			cp := r.VM.Processors[i+1]
-			if prePcC[i] == consR[i] && int(cp.Pc) == consR[i]+1 {
+			if consR[i][prePcC[i]] && int(cp.Pc) == prePcC[i]+1 {
 				v := gen.U64(cp.Registers[0])
 				if c.Consumers[i].Sicv3 {
 					// no value is captured: the transfer counts, its position takes the offered value
@@ -290,6 +310,12 @@ func prop(c Case) pbt.Outcome {
 	for _, cs := range c.Consumers {
 		if cs.Sicv3 {
 			labels = append(labels, "sicv3-consumer")
+			break
+		}
+	}
+	for _, cs := range c.Consumers {
+		if cs.Finite > 0 {
+			labels = append(labels, "finite-consumer")
 			break
 		}
 	}
